@@ -221,6 +221,8 @@ def run(cx: Cx):
                          f"module attribute lookup consults the module's globals before its __getattr__, so a global tag named like a "
                          f"module global ({glob_names}) can never be read back as Tags.<name>; the module-level add_tag accepts such "
                          f"names (path condition [{p.cond!r}])", where=cx.where(madd), module_globals=glob_names)
+    # a name rejected by the module facade must not have been stored already
+    check_atomic(cx, madd.qualname, ['DuplicateTagError'])
     for fname, target in (('get_tag_name', 'get_tag_name'), ('itemize', 'itemize')):
         f = cx.fn(TAGS + fname)
         tq = TL + '.' + target
